@@ -9,15 +9,17 @@ fn f1(_: &mut W, _: Context) -> LocalBoxFuture<'_, ()> { Box::pin(async {}) }
 fn f2(_: &mut W, _: Context) -> LocalBoxFuture<'_, ()> { Box::pin(async {}) }
 
 pub fn run() {
+    std::panic::set_hook(Box::new(|_| {}));
     let fns: [cucumber::step::Step<W>; 3] = [f0, f1, f2];
     // regexes written with '_' for ' ' so that the case line stays one token
-    let menus: [[(&str, &str); 3]; 4] = [
+    let menus: [[(&str, &str); 3]; 5] = [
+        [("given", r"(?P<count>\d+)_cucumbers?"), ("when", r"(né)?_(\w+)_ü"), ("then", r"b(c)")],
         [("given", r"^foo_is_(\d+)"), ("given", r"^foo_is_(?P<n>\d+)_ambiguous$"), ("given", r"^foo_(is|was)_(\d+)?")],
         [("given", r"^foo_is_(\d+)$"), ("when", r"^foo_is_(\d+)$"), ("then", r"^(bar)?foo")],
         [("when", r"^a(b)?(c)?$"), ("when", r"^a(?P<x>b)?"), ("given", r"^a")],
         [("then", r"x"), ("then", r"y"), ("then", r"z")],
     ];
-    let texts = ["foo_is_0_ambiguous", "foo_is_7", "foo_was_", "ab", "ac", "a", "xyz", "y", "nothing"];
+    let texts = ["foo_is_0_ambiguous", "foo_is_7", "foo_was_", "ab", "ac", "a", "xyz", "y", "nothing", "I_have_12_cucumbers", "é_né_zwölf_ü", "abc"];
     let kws = ["given", "when", "then"];
     let orders = [[0, 1, 2], [0, 2, 1], [1, 0, 2], [1, 2, 0], [2, 0, 1], [2, 1, 0]];
     let mut n = 0;
@@ -38,7 +40,13 @@ pub fn run() {
                     let ty = match kw { "given" => "Given", "when" => "When", _ => "Then" };
                     let feat = super::parse_feature(&format!("Feature: f\n  Scenario: s\n    {ty} {}\n", text.replace('_', " ")));
                     let step = &feat.scenarios[0].steps[0];
-                    let result = match c.find(step) {
+                    let found = std::panic::catch_unwind(std::panic::AssertUnwindSafe(|| c.find(step)));
+                    let Ok(found) = found else {
+                        println!("CASE defs={} kw={kw} text={text} result=panicked", menu.iter().map(|(k, r)| format!("{k}:{r}")).collect::<Vec<_>>().join("~~"));
+                        n += 1;
+                        continue;
+                    };
+                    let result = match found {
                         Ok(None) => "none".to_owned(),
                         Err(e) => format!("ambiguous:{}", e.possible_matches.iter().map(|(r, _)| r.as_str().replace(' ', "_")).collect::<Vec<_>>().join(",")),
                         Ok(Some((f, _caps, _loc, ctx))) => {
@@ -71,7 +79,13 @@ pub fn run() {
                 let ty = match kw { "given" => "Given", "when" => "When", _ => "Then" };
                 let feat = super::parse_feature(&format!("Feature: f\n  Scenario: s\n    {ty} {text}\n"));
                 let step = &feat.scenarios[0].steps[0];
-                let result = match c.find(step) {
+                let found = std::panic::catch_unwind(std::panic::AssertUnwindSafe(|| c.find(step)));
+                    let Ok(found) = found else {
+                        println!("CASE defs={} kw={kw} text={text} result=panicked", menu.iter().map(|(k, r)| format!("{k}:{r}")).collect::<Vec<_>>().join("~~"));
+                        n += 1;
+                        continue;
+                    };
+                    let result = match found {
                     Ok(None) => "none".to_owned(),
                     Err(e) => format!("ambiguous:{}", e.possible_matches.iter().map(|(r, _)| r.as_str().to_owned()).collect::<Vec<_>>().join(",")),
                     Ok(Some((f, _caps, _loc, ctx))) => {
